@@ -14,6 +14,7 @@ import (
 	"bytes"
 	"fmt"
 	"go/ast"
+	"go/build"
 	"go/constant"
 	"go/token"
 	"go/types"
@@ -42,6 +43,17 @@ type lvar struct {
 	typ     types.Type
 	nat     bool
 	isParam bool
+	inout   bool   // slice parameter whose elements the function writes: returned to the caller
+	leanT   string // non-empty: Lean type given directly (external operations)
+}
+
+// externFields: struct fields holding an object that is not translated.  A
+// function that calls a method on such a field, or compares it with nil, takes
+// the method (as a function that may not return: `Option`) / the nil-ness as an
+// argument.  The same argument is used for every call in the function, i.e. the
+// external object is taken not to change while the function runs.
+var externFields = map[string]bool{
+	"service.service.in": true,
 }
 
 type fnInfo struct {
@@ -55,6 +67,8 @@ type fnInfo struct {
 	params   []*lvar
 	resTypes []types.Type
 	resNat   []bool
+	inout    []int   // indices of in-out slice parameters (returned after the receiver, before the results)
+	externs  []*lvar // external operations taken as arguments (after fuel, before the receiver)
 	done     bool
 }
 
@@ -81,6 +95,8 @@ type fn struct {
 	tmpN         int
 	outerLoop    token.Pos
 	pendingLabel string
+	binds        map[string]*bindInfo
+	externByName map[string]*lvar
 	body         string
 }
 
@@ -88,8 +104,9 @@ type xlator struct {
 	ld      *loader
 	where   string
 	allowed map[string]bool // "pkgpath recv name"
-	funcs   map[*types.Func]*fnInfo
+	funcs   map[string]*fnInfo
 	structs map[*types.Named]*structInfo
+	pkgMaps map[*types.Var]string
 	out     strings.Builder
 	summary []string
 }
@@ -120,16 +137,16 @@ func (x *xlator) pkgPath(t target) string {
 // from/at: the calling function and call site (nil for whitelist roots).
 func (x *xlator) translate(fo *types.Func, from *fn, at ast.Node) *fnInfo {
 	fo = fo.Origin()
-	if fi, ok := x.funcs[fo]; ok {
+	if fo.Pkg() == nil {
+		die("%s: call of %s", x.where, fo.FullName())
+	}
+	k := key(fo.Pkg().Path(), recvBase(fo), fo.Name())
+	if fi, ok := x.funcs[k]; ok {
 		if !fi.done {
 			die("%s: recursion through %s is outside the supported subset", x.where, fi.lean)
 		}
 		return fi
 	}
-	if fo.Pkg() == nil {
-		die("%s: call of %s", x.where, fo.FullName())
-	}
-	k := key(fo.Pkg().Path(), recvBase(fo), fo.Name())
 	if !x.allowed[k] {
 		if from != nil {
 			from.unsupported(at, "call of %s, which is not on the translator's whitelist", fo.FullName())
@@ -140,6 +157,11 @@ func (x *xlator) translate(fo *types.Func, from *fn, at ast.Node) *fnInfo {
 	decl := pkg.findFunc(recvBase(fo), fo.Name())
 	if decl == nil {
 		die("%s: no declaration with a body for %s", x.where, fo.FullName())
+	}
+	// the object of the package as loaded here (a standard-library package reached through an
+	// import of another package is a different type-checked instance)
+	if own, ok := pkg.info.Defs[decl.Name].(*types.Func); ok {
+		fo = own
 	}
 	saveWhere := x.where
 	fi := x.translateDecl(pkg, decl, fo)
@@ -160,7 +182,7 @@ func (x *xlator) translateDecl(pkg *pkgInfo, decl *ast.FuncDecl, fo *types.Func)
 	}
 	lean += leanIdent(fo.Name())
 	info := &fnInfo{key: fo, lean: lean, goName: goName}
-	x.funcs[fo] = info
+	x.funcs[key(fo.Pkg().Path(), recvBase(fo), fo.Name())] = info
 
 	sig := fo.Type().(*types.Signature)
 	if sig.TypeParams() != nil || sig.Variadic() {
@@ -198,6 +220,9 @@ func (x *xlator) translateDecl(pkg *pkgInfo, decl *ast.FuncDecl, fo *types.Func)
 	}
 	p := fset.Position(decl.Pos())
 	rel := strings.TrimPrefix(p.Filename, x.ld.repo+"/")
+	if gr := build.Default.GOROOT; strings.HasPrefix(rel, gr+"/") {
+		rel = "$GOROOT/" + strings.TrimPrefix(rel, gr+"/")
+	}
 	fmt.Fprintf(&b, "/-- Go: `%s` (%s:%d)", goName, rel, p.Line)
 	if info.mutates {
 		b.WriteString("; returns the receiver after the call first")
@@ -213,6 +238,7 @@ func (x *xlator) translateDecl(pkg *pkgInfo, decl *ast.FuncDecl, fo *types.Func)
 	if info.fuel {
 		b.WriteString(" (fuel : Nat)")
 	}
+	b.WriteString(f.binders(info.externs))
 	if info.recv != nil {
 		b.WriteString(f.binders([]*lvar{info.recv}))
 	}
@@ -230,8 +256,55 @@ func (x *xlator) translateDecl(pkg *pkgInfo, decl *ast.FuncDecl, fo *types.Func)
 	if info.mutates {
 		mode += ", threads receiver"
 	}
+	if len(info.inout) != 0 {
+		mode += ", returns written slice argument"
+	}
 	x.summary = append(x.summary, fmt.Sprintf("%s  ⇐  %s (%s:%d)  [%s]", lean, goName, rel, p.Line, mode))
 	return info
+}
+
+// externField: e selects a struct field that holds an external object
+func (f *fn) externField(e ast.Expr) *fieldInfo {
+	sel, ok := e.(*ast.SelectorExpr)
+	if !ok {
+		return nil
+	}
+	s, ok := f.pkg.info.Selections[sel]
+	if !ok || s.Kind() != types.FieldVal {
+		return nil
+	}
+	t := f.typeOf(sel.X)
+	ix := s.Index()
+	for i, j := range ix {
+		if kindOf(t) != kStruct {
+			return nil
+		}
+		si := f.x.structOf(t)
+		fi := si.fields[j]
+		if i == len(ix)-1 {
+			if fi.extern {
+				return fi
+			}
+			return nil
+		}
+		t = fi.typ
+	}
+	return nil
+}
+
+func (f *fn) isExternCall(c *ast.CallExpr) bool {
+	sel, ok := c.Fun.(*ast.SelectorExpr)
+	return ok && f.externField(sel.X) != nil
+}
+
+func (f *fn) addExtern(name, leanT string) *lvar {
+	if lv, ok := f.externByName[name]; ok {
+		return lv
+	}
+	lv := &lvar{name: leanIdent(name), isParam: true, leanT: leanT}
+	f.externByName[name] = lv
+	f.info.externs = append(f.info.externs, lv)
+	return lv
 }
 
 func (f *fn) newVar(o *types.Var, isParam bool) *lvar {
@@ -298,6 +371,41 @@ func (f *fn) declare() {
 			f.newVar(o, false)
 		}
 	}
+	f.info.externs = nil
+	f.externByName = map[string]*lvar{}
+	ast.Inspect(f.decl.Body, func(n ast.Node) bool {
+		switch n := n.(type) {
+		case *ast.CallExpr:
+			if sel, ok := n.Fun.(*ast.SelectorExpr); ok {
+				if fi := f.externField(sel.X); fi != nil {
+					fo := f.calleeOf(n)
+					if fo == nil {
+						f.unsupported(n, "call on external object %s", fi.name)
+					}
+					sig := fo.Type().(*types.Signature)
+					var ps, rs []string
+					for i := 0; i < sig.Params().Len(); i++ {
+						ps = append(ps, f.x.leanType(sig.Params().At(i).Type(), false))
+					}
+					for i := 0; i < sig.Results().Len(); i++ {
+						rs = append(rs, f.x.leanType(sig.Results().At(i).Type(), false))
+					}
+					if len(rs) == 0 {
+						rs = []string{"Unit"}
+					}
+					f.addExtern(fi.name+"_"+fo.Name(), strings.Join(append(ps, "Option ("+strings.Join(rs, " × ")+")"), " → "))
+				}
+			}
+		case *ast.BinaryExpr:
+			if f.externField(n.X) != nil {
+				f.addExtern(f.externField(n.X).name+"_isNil", "Bool")
+			}
+			if f.externField(n.Y) != nil {
+				f.addExtern(f.externField(n.Y).name+"_isNil", "Bool")
+			}
+		}
+		return true
+	})
 	// type-switch symbols are Implicits; handled where they occur
 	for _, id := range ids {
 		o := f.pkg.info.Uses[id]
@@ -335,7 +443,79 @@ func (f *fn) analyse() {
 			}
 		}
 	}
+	// slice parameters written element-wise are in-out; they must not be re-bound as a whole
+	f.info.inout = nil
+	for _, lv := range f.assignedOuter([][]ast.Stmt{f.decl.Body.List}) {
+		if lv == f.info.recv || !lv.isParam {
+			continue
+		}
+		whole, elem := false, false
+		ast.Inspect(f.decl.Body, func(n ast.Node) bool {
+			chk := func(e ast.Expr) {
+				if id, ok := e.(*ast.Ident); ok && info.Uses[id] == types.Object(lv.obj) {
+					whole = true
+					return
+				}
+				for {
+					switch x := e.(type) {
+					case *ast.IndexExpr:
+						e = x.X
+						continue
+					case *ast.SliceExpr:
+						e = x.X
+						continue
+					case *ast.ParenExpr:
+						e = x.X
+						continue
+					}
+					break
+				}
+				if id, ok := e.(*ast.Ident); ok && info.Uses[id] == types.Object(lv.obj) {
+					elem = true
+				}
+			}
+			switch s := n.(type) {
+			case *ast.AssignStmt:
+				for _, l := range s.Lhs {
+					chk(l)
+				}
+			case *ast.IncDecStmt:
+				chk(s.X)
+			case *ast.CallExpr:
+				if id, ok := s.Fun.(*ast.Ident); ok && id.Name == "copy" && len(s.Args) > 0 {
+					if _, isId := s.Args[0].(*ast.Ident); isId {
+						elem = elem || info.Uses[s.Args[0].(*ast.Ident)] == types.Object(lv.obj)
+					} else {
+						chk(s.Args[0])
+					}
+				}
+			}
+			return true
+		})
+		k := kindOf(lv.typ)
+		if elem && (k == kBytes || k == kSlice) {
+			if whole {
+				f.unsupported(f.decl, "slice parameter %s is written element-wise and also re-bound", lv.name)
+			}
+			lv.inout = true
+			for i, p := range f.info.params {
+				if p == lv {
+					f.info.inout = append(f.info.inout, i)
+				}
+			}
+		}
+	}
 	rhsNat := func(e ast.Expr, i int) bool {
+		if c, ok := e.(*ast.CallExpr); ok && f.isExternCall(c) {
+			return false
+		}
+		if c, ok := e.(*ast.CallExpr); ok {
+			if id, ok := c.Fun.(*ast.Ident); ok {
+				if b, ok := info.Uses[id].(*types.Builtin); ok && b.Name() == "copy" {
+					return true
+				}
+			}
+		}
 		if c, ok := e.(*ast.CallExpr); ok {
 			if tv, ok := info.Types[c.Fun]; !(ok && tv.IsType()) {
 				if fo := f.calleeOf(c); fo != nil && !isErrorMaker(fo) && !f.x.isSpecial(fo) {
@@ -458,6 +638,7 @@ func (f *fn) analyse() {
 	})
 	// the analysis evaluated expressions: forget what that recorded
 	f.usedPanic, f.usedFuel, f.usedBind, f.needFuel, f.escaped, f.tmpN = false, false, false, false, false, 0
+	f.binds = nil
 }
 
 func identOf(e ast.Expr) *ast.Ident {
@@ -470,11 +651,84 @@ func identOf(e ast.Expr) *ast.Ident {
 	return nil
 }
 
+// pkgMap: a package-level map variable initialised by a literal with constant
+// keys and never assigned in its package is read as that literal
+func (x *xlator) pkgMap(f *fn, n ast.Node, o *types.Var) string {
+	if name, ok := x.pkgMaps[o]; ok {
+		return name
+	}
+	pkg := x.ld.load(o.Pkg().Path())
+	var lit *ast.CompositeLit
+	for _, file := range pkg.files {
+		ast.Inspect(file, func(m ast.Node) bool {
+			switch m := m.(type) {
+			case *ast.ValueSpec:
+				for i, nm := range m.Names {
+					if pkg.info.Defs[nm] == types.Object(o) && i < len(m.Values) {
+						lit, _ = m.Values[i].(*ast.CompositeLit)
+					}
+				}
+			case *ast.AssignStmt:
+				for _, l := range m.Lhs {
+					e := l
+					for {
+						if ix, ok := e.(*ast.IndexExpr); ok {
+							e = ix.X
+							continue
+						}
+						break
+					}
+					if id := identOf(e); id != nil && pkg.info.Uses[id] == types.Object(o) {
+						f.unsupported(n, "package-level map %s is assigned at %s", o.Name(), fset.Position(m.Pos()))
+					}
+				}
+			case *ast.CallExpr:
+				if id, ok := m.Fun.(*ast.Ident); ok && id.Name == "delete" && len(m.Args) > 0 {
+					if a := identOf(m.Args[0]); a != nil && pkg.info.Uses[a] == types.Object(o) {
+						f.unsupported(n, "package-level map %s is changed at %s", o.Name(), fset.Position(m.Pos()))
+					}
+				}
+			}
+			return true
+		})
+	}
+	if lit == nil {
+		f.unsupported(n, "package-level map %s has no literal initialiser", o.Name())
+	}
+	mt := o.Type().Underlying().(*types.Map)
+	tmp := &fn{x: x, pkg: pkg, info: &fnInfo{}, goName: o.Pkg().Name() + "." + o.Name(), vars: map[*types.Var]*lvar{}}
+	var parts []string
+	for _, el := range lit.Elts {
+		kv, ok := el.(*ast.KeyValueExpr)
+		if !ok {
+			f.unsupported(n, "map literal element")
+		}
+		kx, vx := tmp.expr(kv.Key), tmp.expr(kv.Value)
+		if kx.cv == nil || len(vx.g) != 0 {
+			f.unsupported(n, "map literal with a non-constant key")
+		}
+		parts = append(parts, "("+tmp.conv(kx, mt.Key(), kv)+", "+tmp.as(tmp.convVal(vx, mt.Elem(), kv), false, kv)+")")
+	}
+	name := x.pkgPrefix(o.Pkg()) + "." + leanIdent(o.Name())
+	x.emit(fmt.Sprintf("/-- Go: package-level `var %s` (%s), read as its initialiser: nothing in its package assigns it -/\ndef %s : %s := [%s]\n\n",
+		o.Name(), o.Pkg().Path(), name, x.leanType(o.Type(), false), strings.Join(parts, ", ")))
+	x.pkgMaps[o] = name
+	return name
+}
+
 // ---- functions with a built-in meaning ------------------------------------------
 
-func (x *xlator) isSpecial(fo *types.Func) bool { return false }
+func (x *xlator) isSpecial(fo *types.Func) bool {
+	return fo.Pkg() != nil && fo.Pkg().Path() == "bytes" && fo.Name() == "IndexByte"
+}
 
-func (x *xlator) special(f *fn, c *ast.CallExpr, fo *types.Func) *val { return nil }
+func (x *xlator) special(f *fn, c *ast.CallExpr, fo *types.Func) *val {
+	if fo.Pkg() != nil && fo.Pkg().Path() == "bytes" && fo.Name() == "IndexByte" {
+		a, b := f.expr(c.Args[0]), f.expr(c.Args[1])
+		return &val{s: "(Go.indexByte " + a.s + " " + b.s + ")", g: append(append([]string{}, a.g...), b.g...), t: types.Typ[types.Int]}
+	}
+	return nil
+}
 
 func (x *xlator) specialMulti(f *fn, c *ast.CallExpr, fo *types.Func) []val { return nil }
 
@@ -485,7 +739,51 @@ func (x *xlator) specialStmt(f *fn, c *ast.CallExpr, fo *types.Func, k kont) (st
 // ---- whitelist ---------------------------------------------------------------------
 
 var whitelist = []target{
+	// C06
 	{"topics", "", "nextTopicLevel"},
+	// C03/C04: length arithmetic of the codec
+	{"message", "header", "msglen"},
+	{"message", "header", "SetRemainingLength"},
+	{"message", "header", "Flags"},
+	{"message", "header", "Len"},
+	{"message", "ConnackMessage", "msglen"},
+	{"message", "ConnackMessage", "Len"},
+	{"message", "PubackMessage", "msglen"},
+	{"message", "PubackMessage", "Len"},
+	{"message", "PublishMessage", "QoS"},
+	{"message", "PublishMessage", "msglen"},
+	{"message", "PublishMessage", "Len"},
+	{"message", "SubackMessage", "msglen"},
+	{"message", "SubackMessage", "Len"},
+	{"message", "SubscribeMessage", "msglen"},
+	{"message", "SubscribeMessage", "Len"},
+	{"message", "UnsubscribeMessage", "msglen"},
+	{"message", "UnsubscribeMessage", "Len"},
+	{"message", "ConnectMessage", "WillFlag"},
+	{"message", "ConnectMessage", "UsernameFlag"},
+	{"message", "ConnectMessage", "PasswordFlag"},
+	{"message", "ConnectMessage", "msglen"},
+	{"message", "ConnectMessage", "Len"},
+	{"message", "DisconnectMessage", "Len"},
+	{"std:encoding/binary", "", "Uvarint"},
+	{"std:encoding/binary", "", "PutUvarint"},
+	// C05: framing
+	{"service", "service", "peekMessageSize"},
+	// C14 (and C13's queue): power-of-two sizing, ring copy
+	{"service", "", "powerOfTwo64"},
+	{"service", "", "roundUpPowerOfTwo64"},
+	{"service", "", "ringCopy"},
+	{"sessions", "", "powerOfTwo64"},
+	{"sessions", "", "roundUpPowerOfTwo64"},
+	// validators
+	{"message", "", "ValidQos"},
+	{"message", "", "ValidTopic"},
+	{"message", "", "ValidVersion"},
+	{"message", "", "ValidConnackError"},
+	{"message", "Type", "Valid"},
+	{"message", "Type", "DefaultFlags"},
+	{"message", "ConnackCode", "Valid"},
+	{"topics", "", "checkSys"},
 }
 
 func main() {
@@ -493,8 +791,8 @@ func main() {
 		die("usage: xlate <repo> <out.lean>")
 	}
 	repo, outPath := strings.TrimRight(os.Args[1], "/"), os.Args[2]
-	x := &xlator{ld: newLoader(repo), allowed: map[string]bool{}, funcs: map[*types.Func]*fnInfo{},
-		structs: map[*types.Named]*structInfo{}}
+	x := &xlator{ld: newLoader(repo), allowed: map[string]bool{}, funcs: map[string]*fnInfo{},
+		structs: map[*types.Named]*structInfo{}, pkgMaps: map[*types.Var]string{}}
 	for _, t := range whitelist {
 		x.allowed[key(x.pkgPath(t), t.recv, t.name)] = true
 	}
